@@ -9,7 +9,8 @@ cd "$(dirname "$0")/.."
 demo_dir=$(python3 -c "import json;print(json.load(open('$M/meta.json')).get('demo_dir','tests'))")
 demo_dir=${demo_dir#/}; demo_dir=$(echo "$demo_dir" | sed 's#.*/\(tests\|deploy\|contracts/[a-z]*\)/*$#\1#')
 R=$(mktemp -d /tmp/mrepo.XXXXXX); C=$(mktemp -d /tmp/crepo.XXXXXX)
-trap 'rm -rf "$R" "$C"' EXIT
+prune_bins() { for d in "$@"; do t=$(python3 -c "import hashlib,os,sys;print(hashlib.sha256(os.path.realpath(sys.argv[1]).encode()).hexdigest()[:8])" "$d"); rm -f .bin/*_$t; done; }
+trap 'prune_bins "$R" "$C"; rm -rf "$R" "$C"' EXIT
 rsync -a --exclude .git /repo/ "$R/"; rsync -a --exclude .git /repo/ "$C/"
 (cd "$R" && patch -p1 -s < "$M/patch.diff") || { echo "RESULT patch-does-not-apply"; exit 2; }
 (cd "$R" && go build ./... ) || { echo "RESULT does-not-compile"; exit 2; }
